@@ -178,16 +178,16 @@ theorem getMoveFrom_att {g : Game P M} (hg : GameOK g) (he : EvalOK g) (hinj : H
     (pv : List M) (v : Int) (st : Stats) (s : Eng M) (hts : TableSound g s) (hta : TableAtt g s)
     (hk : v > Facts.winThreshold → HeadKeeps g p pv) :
     Sat (getMoveFrom g cfg o p pv v st s) (fun x => TableSound g x.2 ∧ TableAtt g x.2 ∧
-      (v > Facts.winThreshold → pv ≠ [] → Keeps g p x.1)) := by
+      (v > Facts.winThreshold → Keeps g p x.1)) := by
   unfold getMoveFrom
   cases pv with
-  | nil => exact Sat.ok ⟨hts, hta, fun _ h => absurd rfl h⟩
+  | nil => exact Sat.ok ⟨hts, hta, fun h => by obtain ⟨_, _, e, _⟩ := hk h; cases e⟩
   | cons pv0 rest =>
     dsimp only
     split
-    · exact Sat.ok ⟨hts, hta, fun h _ => hk h pv0 rest rfl⟩
+    · exact Sat.ok ⟨hts, hta, fun h => (hk h).head⟩
     · split
-      · exact Sat.ok ⟨hts, hta, fun h _ => hk h pv0 rest rfl⟩
+      · exact Sat.ok ⟨hts, hta, fun h => (hk h).head⟩
       · rename_i hdec
         have hnw : ¬ v > Facts.winThreshold := by
           intro h; apply hdec; simp only [Bool.or_eq_true, decide_eq_true_eq]; exact .inl h
@@ -218,14 +218,14 @@ theorem getMove_inner {g : Game P M} {cfg : Cfg} {o : Oracle M} {p : P} {s : Eng
 
 /-- **the move `GetMove` plays keeps the win `Analyze` reports**: on an engine whose table is sound and names winning
 moves (a new engine; kept by every `Analyze` / `GetMove` / `AnalyzeAll`), with `(pv, v, st)` the result of the `Analyze`
-call `GetMove` makes: the table stays so, `v` is a sound verdict, and if `v > WinThreshold` (and the PV is not empty)
+call `GetMove` makes: the table stays so, `v` is a sound verdict, and if `v > WinThreshold`
 the returned move is accepted and leaves the opponent lost. -/
 theorem getMove_att {g : Game P M} (hg : GameOK g) (he : EvalOK g) (hinj : HashOK g) (hm : HashMovesOK g)
     {cfg : Cfg} (hpr : Precise cfg.opts) {o : Oracle M} (hord : OrderOK o) (hw : 0 ≤ cfg.randomizeWindow)
     (p : P) (s : Eng M) (hts : TableSound g s) (hta : TableAtt g s) :
     Sat (getMove g cfg o p s) (fun x => TableSound g x.2 ∧ TableAtt g x.2 ∧
       ∀ pv v st s1, analyze g cfg o p s = .ok ((pv, v, st), s1) →
-        VSound g p v ∧ (v > Facts.winThreshold → pv ≠ [] → Keeps g p x.1)) := by
+        VSound g p v ∧ (v > Facts.winThreshold → Keeps g p x.1)) := by
   intro x hx
   obtain ⟨pv, v, st, s1, ha, hf⟩ := getMove_inner hx
   obtain ⟨hts1, hta1, hv, hk⟩ := analyze_att hg he hinj hm hpr hord p s hts hta _ ha
